@@ -102,4 +102,117 @@ theorem bfv_set_frame (W : Nat) (hW : 0 < W) (s : BFV.St) (h : s.WInv W) (i v : 
     ∀ k, k < i * s.bw ∨ (i + 1) * s.bw ≤ k → bitAt W s'.words k = bitAt W s.words k :=
   BFV.set_frame W hW s h i v s' hs
 
+/-! ## whole histories (the property quantifies over every operation sequence) -/
+
+/-- readers, `BitVec`: the observation sequence of any history depends on the logical contents only -/
+theorem bv_history_ignores_garbage (s₁ s₂ : BV.St) (h₁ : s₁.Inv) (h₂ : s₂.Inv)
+    (habs : s₁.abs = s₂.abs) (ops : List BV.Op) :
+    (match BV.run s₁ ops, BV.run s₂ ops with
+     | .ok (t₁, os₁), .ok (t₂, os₂) => os₁ = os₂ ∧ t₁.abs = t₂.abs
+     | .panic, .panic => True
+     | _, _ => False) :=
+  BV.run_ignores_garbage s₁ s₂ h₁ h₂ habs ops
+
+/-- readers, `BitFieldVec`: two stores of the same width and logical contents — whatever lies beyond
+`len * bw`, however many spare words — answer every history identically (same observations, same
+final contents), or both panic -/
+theorem bfv_history_ignores_garbage (W : Nat) (hW : 0 < W) (s₁ s₂ : BFV.St) (h₁ : s₁.WInv W)
+    (h₂ : s₂.WInv W) (hbw : s₁.bw = s₂.bw) (hv : s₁.vals W = s₂.vals W) (ops : List BFV.Op) :
+    (∃ t₁ t₂ os, BFV.run W s₁ ops = .ok (t₁, os) ∧ BFV.run W s₂ ops = .ok (t₂, os) ∧
+        t₁.bw = t₂.bw ∧ t₁.vals W = t₂.vals W) ∨
+      (BFV.run W s₁ ops = .panic ∧ BFV.run W s₂ ops = .panic) := by
+  have r₁ := BFV.run_refines_weak W hW s₁ h₁ ops
+  have r₂ := BFV.run_refines_weak W hW s₂ h₂ ops
+  rw [← hbw, ← hv] at r₂
+  cases hs : BFV.specRun s₁.bw (s₁.vals W) ops with
+  | none =>
+    rw [hs] at r₁ r₂
+    exact Or.inr ⟨r₁, r₂⟩
+  | some r =>
+    obtain ⟨l', os⟩ := r
+    rw [hs] at r₁ r₂
+    obtain ⟨a, ea, _, hba, _, hva⟩ := r₁
+    obtain ⟨b, eb, _, hbb, _, hvb⟩ := r₂
+    exact Or.inl ⟨a, b, os, ea, eb, by rw [hba, hbb, hbw], by rw [hva, hvb]⟩
+
+/-- writers, `BitVec`: a history of non-growing operations of any length leaves every bit at or
+beyond `len`, and the shape of the store, untouched -/
+theorem bv_history_frame (s : BV.St) (h : s.Inv) (ops : List BV.Op)
+    (hop : ∀ op ∈ ops, op.nonGrowing = true) (s' : BV.St) (os : List BV.Obs)
+    (hs : BV.run s ops = .ok (s', os)) :
+    s'.len = s.len ∧ s'.words.size = s.words.size ∧ ∀ k, s.len ≤ k → s'.bit k = s.bit k := by
+  induction ops generalizing s os with
+  | nil =>
+    simp only [BV.run, Out.ok.injEq, Prod.mk.injEq] at hs
+    obtain ⟨rfl, _⟩ := hs
+    exact ⟨rfl, rfl, fun _ _ => rfl⟩
+  | cons op ops ih =>
+    have hr := BV.step_refines s h op
+    cases hsp : BV.specStep s.abs op with
+    | none =>
+      rw [hsp] at hr
+      simp only at hr
+      simp [BV.run, hr, bind, Out.bind] at hs
+    | some r =>
+      obtain ⟨l', o⟩ := r
+      rw [hsp] at hr
+      simp only at hr
+      obtain ⟨m, em, hm, _⟩ := hr
+      have hf := BV.step_frame s h op (hop op (List.mem_cons_self)) m o em
+      cases hrun : BV.run m ops with
+      | ok q =>
+        obtain ⟨t, os'⟩ := q
+        simp [BV.run, em, hrun, bind, Out.bind, pure] at hs
+        obtain ⟨rfl, _⟩ := hs
+        have := ih m hm (fun op' ho => hop op' (List.mem_cons_of_mem _ ho)) os' hrun
+        obtain ⟨a1, a2, a3⟩ := this
+        obtain ⟨b1, b2, b3⟩ := hf
+        exact ⟨by rw [a1, b1], by rw [a2, b2], fun k hk => by rw [a3 k (by rw [b1]; exact hk), b3 k hk]⟩
+      | panic => simp [BV.run, em, hrun, bind, Out.bind] at hs
+      | oob => simp [BV.run, em, hrun, bind, Out.bind] at hs
+
+/-- writers, `BitFieldVec`: the same for any history of non-growing operations -/
+theorem bfv_history_frame (W : Nat) (hW : 0 < W) (s : BFV.St) (h : s.Inv W) (ops : List BFV.Op)
+    (hop : ∀ op ∈ ops, op.nonGrowing = true) (s' : BFV.St) (os : List BFV.Obs)
+    (hs : BFV.run W s ops = .ok (s', os)) :
+    s'.len = s.len ∧ s'.words.size = s.words.size ∧
+      ∀ k, s.len * s.bw ≤ k → bitAt W s'.words k = bitAt W s.words k := by
+  induction ops generalizing s os with
+  | nil =>
+    simp only [BFV.run, Out.ok.injEq, Prod.mk.injEq] at hs
+    obtain ⟨rfl, _⟩ := hs
+    exact ⟨rfl, rfl, fun _ _ => rfl⟩
+  | cons op ops ih =>
+    have hr := BFV.step_refines W hW s h op
+    cases hsp : BFV.specStep s.bw (s.vals W) op with
+    | none =>
+      rw [hsp] at hr
+      simp only at hr
+      simp [BFV.run, hr, bind, Out.bind] at hs
+    | some r =>
+      obtain ⟨l', o⟩ := r
+      rw [hsp] at hr
+      simp only at hr
+      obtain ⟨m, em, hm, hbm, _⟩ := hr
+      have hf := BFV.step_frame W hW s h op (hop op (List.mem_cons_self)) m o em
+      cases hrun : BFV.run W m ops with
+      | ok q =>
+        obtain ⟨t, os'⟩ := q
+        simp [BFV.run, em, hrun, bind, Out.bind, pure] at hs
+        obtain ⟨rfl, _⟩ := hs
+        have := ih m hm (fun op' ho => hop op' (List.mem_cons_of_mem _ ho)) os' hrun
+        obtain ⟨a1, a2, a3⟩ := this
+        obtain ⟨b1, b2, b3⟩ := hf
+        exact ⟨by rw [a1, b1], by rw [a2, b2],
+          fun k hk => by rw [a3 k (by rw [b1, hbm]; exact hk), b3 k hk]⟩
+      | panic => simp [BFV.run, em, hrun, bind, Out.bind] at hs
+      | oob => simp [BFV.run, em, hrun, bind, Out.bind] at hs
+
+/-- non-vacuity: two different `BitVec` stores with equal contents and a six-op history -/
+example : (match BV.run BV.exA BV.exOps, BV.run BV.exB BV.exOps with
+     | .ok (t₁, os₁), .ok (t₂, os₂) => os₁ = os₂ ∧ t₁.abs = t₂.abs
+     | .panic, .panic => True
+     | _, _ => False) :=
+  bv_history_ignores_garbage BV.exA BV.exB BV.exA_inv BV.exB_inv BV.exAB_abs BV.exOps
+
 end Sux.C14
